@@ -514,6 +514,16 @@ def rule_flags_writers(ctx: Ctx, prog: Program, thorough: bool = False) -> None:
         ctx.violation("R-FLAGS-WRITERS", fn.path, fn.qualname, "unexpected-writer", loc,
                       f"{fn.qualname} writes the enabled-constraints stack; only cp_init, cp_put and the entailment branch of the "
                       "propagation loop may")
+    # the two protocol writers must still write: a cp_init that no longer re-enables every constraint (or a cp_put that no longer copies
+    # the row) is a definite violation, reported as such rather than as a drop in the number of writers
+    seen_writers = {fn.name for fn, p in roles.functions_with_role("not_entailed_propagators_stack") if _stores_through(fn, p)}
+    for must, why in (("cp_init", "a restart (reset) keeps the constraints disabled by the previous search: they are never executed again"),
+                      ("cp_put", "a new level starts with whatever flags were left in that row by an earlier visit")):
+        if must not in seen_writers:
+            f0 = prog.func(f"{prog.package}.solvers.choice_points", must)
+            ctx.violation("R-FLAGS-WRITERS", f0.path, must, "protocol-writer-silent", f0.loc(),
+                          f"{must} no longer writes the enabled-constraints stack: {why}")
+            n_writers += 1
     ctx.floor("R-FLAGS-WRITERS:writers", n_writers, 3)
 
 
@@ -680,3 +690,56 @@ def rule_wakeup(ctx: Ctx, prog: Program) -> None:
                               f"(required: queue p whenever {row}[p] and {tab}[{dom}, p] & {evs} != 0)")
     ctx.floor("R-WAKEUP:setting-paths", n_set, 1)
     ctx.floor("R-WAKEUP:skipping-paths", n_skip, 1)
+
+
+# ------------------------------------------------------------------ R-QUEUE-WRITERS: who may write the propagation queue
+QUEUE_WRITERS = {
+    "add_propagators": "sets flags only (R-WAKEUP)",
+    "pop_propagator": "clears the flag of the constraint it hands out, and only that one (R-QUEUE-DRAIN)",
+    "reset": "re-queues every constraint (R-ANNOUNCE reset)",
+}
+
+
+def rule_queue_writers(ctx: Ctx, prog: Program, thorough: bool = False) -> None:
+    """A set flag means 'this constraint's input changed since it last ran'.  Only pop_propagator may clear one (for the constraint
+    it hands out for execution); anybody else clearing a flag discards a pending execution (e.g. a self-requeue after a write-back)."""
+    ctx.rule("R-QUEUE-WRITERS")
+    roles = get_roles(prog)
+    n = 0
+    for fn, p in roles.functions_with_role("triggered_propagators"):
+        if ".examples." in fn.module and not thorough:
+            continue
+        if not _stores_through(fn, p):
+            continue
+        n += 1
+        ctx.fn(fn.fq)
+        if fn.name in QUEUE_WRITERS:
+            ctx.ok("R-QUEUE-WRITERS", f"writer {fn.name}: {QUEUE_WRITERS[fn.name]}", nontrivial=False)
+            continue
+        # any other writer: every store must be a 'set' (queueing more is harmless); a clear is a violation
+        bad: List[Tuple[int, str]] = []
+        for node in ast.walk(fn.node):
+            tgt = None
+            val = None
+            if isinstance(node, ast.Assign) and len(node.targets) == 1:
+                tgt, val = node.targets[0], node.value
+            elif isinstance(node, ast.AugAssign):
+                tgt, val = node.target, None
+            if tgt is not None and isinstance(tgt, ast.Subscript):
+                base = tgt
+                while isinstance(base, ast.Subscript):
+                    base = base.value
+                if isinstance(base, ast.Name) and base.id == p:
+                    if not (isinstance(val, ast.Constant) and val.value is True):
+                        bad.append((node.lineno, ast.unparse(node)))
+            if isinstance(node, ast.Call) and isinstance(node.func, ast.Attribute) and node.func.attr == "fill":
+                base = node.func.value
+                if isinstance(base, ast.Name) and base.id == p and not (node.args and isinstance(node.args[0], ast.Constant) and node.args[0].value is True):
+                    bad.append((node.lineno, ast.unparse(node)))
+        if bad:
+            ctx.violation("R-QUEUE-WRITERS", fn.path, fn.qualname, "clears-queue-flag", f"{fn.path}:{bad[0][0]}",
+                          f"{fn.qualname} writes the propagation queue with `{bad[0][1]}`: only pop_propagator may clear a flag (for the constraint it hands "
+                          "out); clearing it elsewhere discards a pending execution, e.g. the re-queueing of a constraint by its own write-back")
+        else:
+            ctx.ok("R-QUEUE-WRITERS", f"writer {fn.qualname}: only sets flags")
+    ctx.floor("R-QUEUE-WRITERS:writers", n, 3)
